@@ -536,10 +536,48 @@ class Function:
         return False
 
 
+def _canonical_queue_names(text):
+    """qmail-send.c: the rules speak of the daemon's three schedules as pqchan (one queue per channel), pqfail (entries that go back
+    through pqadd) and pqdone (entries that go to messdone).  If the source calls them something else, the roles are read off
+    pass_do() - which queue is emptied into which function - and the facts are renamed to the rules' vocabulary.  Nothing happens on a
+    tree that uses the usual names."""
+    d = json.loads(text)
+    if d.get('unit') != 'qmail-send.c':
+        return d
+    gl = [g for g in d.get('globals', []) if not g.get('extern_decl')]
+    scal = [g['name'] for g in gl if g.get('t') == 'prioq']
+    arrs = [g['name'] for g in gl if (g.get('t') or '').startswith('prioq[')]
+    if {'pqfail', 'pqdone'} <= set(scal) and 'pqchan' in arrs:
+        return d
+    role = {}
+    for f in d.get('functions', []):
+        if f.get('name') != 'pass_do':
+            continue
+        for b in f.get('blocks', []):
+            last = None
+            for e in b.get('elems', []):
+                dd = e.get('d') if e.get('k') == 'ref' else None
+                if dd and dd[:2] == 'G:' and dd[2:] in scal:
+                    last = dd[2:]
+                elif dd == 'F:pqadd' and last:
+                    role.setdefault(last, 'pqfail')
+                elif dd == 'F:messdone' and last:
+                    role.setdefault(last, 'pqdone')
+    if len(arrs) == 1:
+        role.setdefault(arrs[0], 'pqchan')
+    names = {g['name'] for g in gl}
+    role = {a: c for a, c in role.items() if a != c}
+    if not role or len(set(role.values())) != len(role) or any(c in names and c not in role for c in role.values()):
+        return d
+    for a, c in role.items():
+        text = text.replace('"G:%s"' % a, '"G:%s"' % c).replace('"name":"%s"' % a, '"name":"%s"' % c)
+    return json.loads(text)
+
+
 class Unit:
     def __init__(self, path):
         with open(path) as fh:
-            d = json.load(fh)
+            d = _canonical_queue_names(fh.read()) if path.endswith('qmail-send.c.json') else json.load(fh)
         self.name = d['unit']
         self.errors = d.get('errors', False)
         self.macros = d.get('macros', {})
